@@ -163,8 +163,19 @@ class G:
                 kinds += ["neg", "abs", "sublit", "divlit", "opadd", "modlit", "where", "max", "attr", "rsub", "intdiv_neg"]
             else:
                 kinds = ["not", "and", "or", "id"]
+            if dtn != "BOOL" and v.a.ndim >= 1 and v.a.shape[0] >= 2:
+                kinds += ["subscript"]
             k = r.choice(kinds)
-            if k == "addlit":
+            if k == "subscript":
+                # shape-preserving uses of Slice / Gather subscripts on the variable itself (broadcast back over the
+                # sliced axis), so that subscripts occur inside blocks and again in the enclosing graph
+                forms = [f"({e} - {name}[0:1])", f"({e} + {name}[1:2])", f"op.Concat({name}[:1], {name}[1:], axis=0)",
+                         f"({e} * {name}[0])"]
+                if v.a.ndim >= 2 and v.a.shape[1] >= 1:
+                    forms += [f"({e} + {name}[:, 0:1])", f"({e} - {name}[0, 0:1])", f"({e} + {name}[0:1, 0:1])"]
+                e = r.choice(forms)
+                self.feat.add("subscript")
+            elif k == "addlit":
                 e = f"({e} + {self.lit(dtn)})" if dtn != "BOOL" else e
             elif k == "mullit":
                 e = f"({self.lit(dtn)} * {e})" if dtn != "BOOL" else e
@@ -604,14 +615,45 @@ class G:
             raise Bail("cond shape")
         e2 = dict(env)
         body = []
+        late = None
+        if limit >= 2 and not extra and r.random() < 0.6:
+            # a variable that is only loop-carried: read at the top of the body, updated by an `if` (or an inner `for`) at the
+            # END of the body, never read again in that iteration and dead after the loop — only the back edge keeps it live
+            fl = [w for w in carried if env[w].a.dtype.kind == "f"]
+            if fl:
+                acc = fl[0]
+                sv = self.fresh("s")
+                out += self.emit(f"{sv} = op.Identity({acc})", env, indent)
+                e2 = dict(env)
+                body += self.emit(f"{acc} = ({acc} + {sv})", e2, indent + 1)
+                late = (acc, sv, r.choice(["if", "if", "for"]))
         for w in carried:
             body += self.st_assign_like(e2, indent + 1, target=w)
+        if late is not None:
+            acc, sv, how = late
+            if how == "if":
+                ck = self.fresh("ck")
+                body += self.emit(f"{ck} = ({cnt} == {r.choice([0, 0, 1])})", e2, indent + 1)
+                e3 = dict(e2)
+                inner = self.emit(f"{sv} = ({sv} * {r.choice(['2.0', '0.5', '-1.0'])})", e3, indent + 2)
+                inner += self.emit(f"{acc} = ({acc} + 1.0)", e3, indent + 2)
+                body += ["    " * (indent + 1) + f"if {ck}:"] + inner
+            else:
+                j = self.fresh("j")
+                e3 = dict(e2)
+                inner = self.emit(f"{sv} = ({acc} * 0.5)", e3, indent + 2)
+                inner += self.emit(f"{acc} = ({acc} + 1.0)", e3, indent + 2)
+                body += ["    " * (indent + 1) + f"for {j} in range(2):"] + inner
+            self.feat.add("while_late_update_of_carried_only_variable")
+            self.must_use.append(acc)
         body += self.emit(f"{cnt} = {cnt} + 1", e2, indent + 1)
         extra2 = f" & {self.scalar_cond(e2, rank0=True)}" if extra else ""
         body += self.emit(f"{cond} = ({cnt} < {limit}){extra2}", e2, indent + 1)
         if e2[cond].a.shape != env[cond].a.shape:
             raise Bail("cond shape drift")
         out += ["    " * indent + f"while {cond}:"] + body
+        if late is not None:
+            env.pop(late[1], None)      # dead after the loop
         self.feat.add("while_loop")
         self.must_use.append(carried[-1])
         return out
@@ -744,6 +786,50 @@ def generate(rng, n_stmts=6):
     p.features = set(g.feat)
     p.n_returns = len(rets)
     p.helpers = [h["name"] for h in helpers]
+    return p
+
+
+def generate_special(rng):
+    """Comparison-centric programs run on special float values (NaN, +-inf, +-0, ties): everything in them is defined by
+    IEEE-754 in the same way for numpy, ONNX operators, and Python operators on tensors (comparisons with NaN are False,
+    != is True), so the four readings must agree exactly.  No arithmetic whose NaN handling runtimes may choose freely
+    (Max/Min/Relu/Clip/reductions/Cast to int) is used."""
+    p = Prog()
+    dtn = rng.choice(["FLOAT", "FLOAT", "DOUBLE"])
+    n = rng.choice([6, 8])
+    p.params = [("x0", dtn, (n,)), ("x1", dtn, (n,)), ("x2", dtn, ())]
+    ops = ["({a} <= {b})", "({a} >= {b})", "({a} < {b})", "({a} > {b})", "({a} == {b})",
+           "op.LessOrEqual({a}, {b})", "op.GreaterOrEqual({a}, {b})", "op.Less({a}, {b})", "op.Greater({a}, {b})", "op.Equal({a}, {b})"]
+    two = rng.sample(ops[:5], 2)          # operator forms always present (they are what Tensor.__le__ etc. implement)
+    c0 = two[0].format(a="x0", b="x1")
+    c1 = two[1].format(a="x1", b="x0")
+    c2 = rng.choice(ops).format(a="x0", b=rng.choice(["0.0", "1.0", "x2"]))
+    scal = rng.choice(["(x2 <= 1.0)", "(x2 >= 0.0)", "(x2 < 0.5)", "(x2 > -1.0)", "(x2 == x2)"])
+    comb = rng.choice(["(c0 & c1)", "(c0 | c2)", "op.Not(c1)", "(op.Not(c0) & c2)"])
+    body = [f"    c0 = {c0}", f"    c1 = {c1}", f"    c2 = {c2}", f"    m = {comb}",
+            "    w = op.Where(c0, x0, x1)",
+            f"    if {scal}:", "        r = op.Where(c1, x0 + 1.0, x1)", "        k = op.Not(m)",
+            "    else:", "        r = op.Where(c2, x1, x0 - 1.0)", "        k = (m & c2)",
+            "    v = op.Where(k, w, r)"]
+    rann = f"Tuple[BOOL[None], BOOL[None], {dtn}[None], {dtn}[None]]"
+    p.src = HEADER + "@script(default_opset=op)\n" + f"def main(x0: {dtn}[None], x1: {dtn}[None], x2: {dtn}) -> {rann}:\n" + "\n".join(body) + "\n    return m, k, w, v\n"
+    p.features = {"special_values", "if_else", "comparison_operators"}
+    p.n_returns = 4
+    p.helpers = []
+    d = np.dtype(DT[dtn])
+    pool = [np.nan, np.inf, -np.inf, 0.0, -0.0, 1.0, -1.0, 0.5, 1.0, 2.0]
+    sets = []
+    for k in range(3):
+        a = np.array([rng.choice(pool) for _ in range(n)], dtype=d)
+        b = np.array([rng.choice(pool) for _ in range(n)], dtype=d)
+        a[0], b[0] = np.nan, 1.0          # NaN against a number, a number against NaN, NaN against NaN, a tie, +-0
+        a[1], b[1] = 1.0, np.nan
+        a[2], b[2] = np.nan, np.nan
+        a[3], b[3] = 1.0, 1.0
+        a[4], b[4] = 0.0, -0.0
+        c = np.array([np.nan, 0.75, np.inf][k], dtype=d)
+        sets.append([a, b, c])
+    p.special_inputs = sets
     return p
 
 
